@@ -188,6 +188,43 @@ theorem bind_sound_many (p : PSpec) (raw : Option (List Str)) (vs : List Val) (h
       · exact absurd h ((emptyCase_not_value p).2 vs)
       · exact absurd h (scalarCore_not_many p _ vs)
 
+/-- collectionFormat multi: nothing is split or trimmed, so the generated binder and the reference agree on EVERY request
+    (booleans excepted: the lexicon question is the same as for scalars) -/
+theorem multi_agrees (p : PSpec) (hb : p.ty ≠ .bool) (raw : Option (List Str)) : bindGenMulti p raw = bindRefMulti p raw := by
+  unfold bindGenMulti bindRefMulti
+  cases raw with
+  | none => cases hr : p.required <;> simp [hr, emptyCase]
+  | some vs =>
+    simp only [Option.isSome_some, Bool.not_true, Bool.and_false, Bool.false_eq_true, if_false, Option.getD_some]
+    by_cases he : vs.isEmpty = true
+    · simp [he]
+    · simp only [he, Bool.false_eq_true, if_false, arrayCore, bindItems_eq]
+      have hcr : convertRef p.ty = convert p.ty := funext (convertRef_eq p.ty hb)
+      rw [hcr]
+      cases hm : vs.mapM (convert p.ty) with
+      | none => rfl
+      | some vals =>
+        by_cases ha : vals.all (validOne p.v) = true
+        · simp [ha]
+        · simp [ha]
+
+/-- multi: whatever the handler receives satisfies the declared validations -/
+theorem multi_sound (p : PSpec) (raw : Option (List Str)) (vs : List Val) (h : bindGenMulti p raw = .many vs) :
+    (∀ v ∈ vs, validOne p.v v = true) ∧ validMany p vs = true := by
+  unfold bindGenMulti at h
+  split at h
+  · cases h
+  · split at h
+    · exact absurd h ((emptyCase_not_value p).2 vs)
+    · exact arrayCore_many p _ vs h
+
+/-- multi: each repeated key is one item, in order; an item that does not convert rejects the request -/
+theorem multi_examples :
+    bindGenMulti { isArray := true, cf := "multi", ty := .int 64 } (some ["1".toList, "2".toList, "3".toList]) = .many [.i 1, .i 2, .i 3] ∧
+    bindGenMulti { isArray := true, cf := "multi", ty := .int 64 } (some ["1".toList, "zzz".toList]) = .reject ∧
+    bindGenMulti { isArray := true, cf := "multi", ty := .int 64, required := true } none = .reject ∧
+    bindGenMulti { isArray := true, cf := "multi", ty := .str } (some ["a,b".toList]) = .many [.s "a,b"] := by decide
+
 theorem required_enforced (p : PSpec) (hr : p.required = true) : bindGen p none = .reject ∧ bindRef p none = .reject := by
   simp [bindGen, bindRef, hr]
 
